@@ -36,6 +36,20 @@ class Ctx:
         self.extra = {}
         self.known = common.load_known()
         self.all_sigs = []   # uncapped (kind, signature, detail, property_fails); dumped on request (VERIF_DUMP_BREAKS)
+        # recorded findings of this property by signature; committed failing sets (findings/sets/<property>/*.json)
+        self.known_idx = {}
+        for f in self.known.get('findings', []):
+            if f.get('property') == prop:
+                self.known_idx.setdefault(f.get('signature'), f)
+        self.sets = common.load_sets(prop)
+        self.set_of_key = {}   # key -> [signatures whose failing set lists it]
+        for sig, st in self.sets.items():
+            for k in st['failing']:
+                self.set_of_key.setdefault(k, []).append(sig)
+        self.set_hits = {}     # signature -> set(keys of its failing set that failed again in this run)
+        self.set_stale = {}    # signature -> set(keys of its failing set that were evaluated in this run and PASS)
+        self.outside_set = {}  # signature -> number of failing inputs outside its failing set (each one is a break)
+        self.known_dump = []   # uncapped (signature as reported, recorded signature, key): dumped with VERIF_DUMP_KNOWN
 
     def rng(self, *tags):
         return common.rng_for(self.seed, self.prop, *tags)
@@ -51,14 +65,58 @@ class Ctx:
         if len(self.samples) < cap:
             self.samples.append(s)
 
-    def report(self, kind, signature, detail, failing_input=None, property_fails=None):
+    def match_known(self, signature, fallback=()):
+        """The recorded finding that covers `signature`, or None.  `fallback`: older, wider spellings of the same
+        signature (input-keyed signatures that did not say WHAT failed): an entry recorded under a fallback spelling
+        matches unless it carries a `narrow` list (the new-style signatures observed for it on the unchanged tree) that
+        does not contain `signature` — then the input fails in ANOTHER way than the recorded one."""
+        f = self.known_idx.get(signature)
+        if f is not None:
+            return f
+        for old in fallback:
+            f = self.known_idx.get(old)
+            if f is not None and ('narrow' not in f or signature in f['narrow']):
+                return f
+        return None
+
+    def is_known(self, signature, key=None, fallback=()):
+        """Would `report` count this as a recorded finding (signature recorded, and the input inside its failing set
+        when it has one)?  For callers that cap their reports per signature: recorded ones must not be capped."""
+        f = self.match_known(signature, fallback)
+        if f is None:
+            return False
+        st = self.sets.get(f['signature'])
+        return st is None or (key is not None and key in st['failing'])
+
+    def passed(self, key, signature=None):
+        """An input passed its oracle: when a failing set (of `signature`, or any) lists it, it is STALE there (listed in
+        the evidence, never an alarm)."""
+        for sig in self.set_of_key.get(key, ()):
+            if signature is None or sig == signature:
+                self.set_stale.setdefault(sig, set()).add(key)
+
+    def report(self, kind, signature, detail, failing_input=None, property_fails=None, key=None, fallback=()):
         """kind: 'correspondence' (model and implementation disagree), 'property' (a property oracle fails on
         the implementation's output), 'proof' (a proof obligation no longer checks).
-        property_fails: True when `failing_input` is a concrete input on which the property itself fails."""
-        for f in self.known.get('findings', []):
-            if f.get('property') == self.prop and f.get('signature') == signature:
-                self.known_hits[signature] = self.known_hits.get(signature, 0) + 1
+        property_fails: True when `failing_input` is a concrete input on which the property itself fails.
+        key: the input's key in the failing set of the signature (default: culture|query[|reference] of failing_input);
+        a recorded signature that has a failing set exempts only the inputs of the set.
+        fallback: see match_known."""
+        f = self.match_known(signature, fallback)
+        if f is not None:
+            rec = f['signature']
+            st = self.sets.get(rec)
+            if st is not None and key is None:
+                key = common.input_key(failing_input)
+            if st is None or key in st['failing']:
+                self.known_hits[rec] = self.known_hits.get(rec, 0) + 1
+                if st is not None:
+                    self.set_hits.setdefault(rec, set()).add(key)
+                if len(self.known_dump) < 200000:
+                    self.known_dump.append((signature, rec, key if key is not None else common.input_key(failing_input)))
                 return
+            self.outside_set[rec] = self.outside_set.get(rec, 0) + 1
+            detail = 'NOT in the recorded failing set of %r (%s, key %r): %s' % (rec, st['file'], key, detail)
         self.all_sigs.append((kind, signature, detail[:300], bool(property_fails)))
         # separate caps: frequent correspondence breaks must never crowd out concrete property failures
         n_same = sum(1 for b in self.breaks if b['property_fails'] == bool(property_fails))
@@ -171,10 +229,13 @@ def run_check(mod, ctx, t0):
     if os.environ.get('VERIF_DUMP_BREAKS'):
         with open(os.environ['VERIF_DUMP_BREAKS'], 'w', encoding='utf-8') as f:
             json.dump(ctx.all_sigs, f, ensure_ascii=False, indent=0)
+    if os.environ.get('VERIF_DUMP_KNOWN'):
+        with open(os.environ['VERIF_DUMP_KNOWN'], 'w', encoding='utf-8') as f:
+            json.dump(ctx.known_dump, f, ensure_ascii=False, indent=0)
 
     # 5 verdict
     for sig, n in sorted(ctx.known_hits.items()):
-        what = next((f.get('what', '') for f in ctx.known['findings'] if f.get('signature') == sig), '')
+        what = ctx.known_idx.get(sig, {}).get('what', '')
         print('KNOWN-FINDING: property=%s %s (%s; %d case(s) this run)' % (prop, sig, what, n))
     violations = 0
     exit_code = 0
@@ -218,11 +279,22 @@ def run_check(mod, ctx, t0):
         'samples': ctx.samples or ['(none)'],
         'families': ctx.families,
         'known_findings_hit': ctx.known_hits,
+        # recorded findings with a committed failing set: inputs of the set that failed again / that were evaluated and PASS
+        # today (stale: the record is wider than the defect is now) / failing inputs outside the set (each one is a break)
+        'failing_sets': {sig: {'file': st['file'], 'size': len(st['failing']),
+                               'failed_again': len(ctx.set_hits.get(sig, ())),
+                               'stale': sorted(ctx.set_stale.get(sig, ()))[:50],
+                               'stale_count': len(ctx.set_stale.get(sig, ())),
+                               'outside_set': ctx.outside_set.get(sig, 0)}
+                         for sig, st in sorted(ctx.sets.items())},
         'breaks': ctx.breaks[:20],
         'proof_problems': proof_problems,
         'notes': ctx.notes,
         'explanation': getattr(mod, 'EXPLANATION', ''),
     }
+    if ctx.thorough:
+        # recorded signatures of this property that no input of this run hit (candidates for removal; never an alarm)
+        coverage['stale_findings'] = sorted(sig for sig in ctx.known_idx if sig not in ctx.known_hits)
     coverage.update(ctx.extra)
     if level == 'translation_validation':
         coverage.setdefault('programs', ctx.evaluations)
